@@ -98,11 +98,16 @@ StrOctet(c, i) ==
       [] c = 4 -> 255
 StrPattern(c, nbytes) == OctetsToBits([i \in 1..nbytes |-> StrOctet(c, i)])
 
-(* the pattern chosen for subset s at output position idx *)
-Pattern(t, w, idx, s) ==
+(* the pattern chosen for subset s at output position idx.  w0 is the width the element has in Table B: a
+   field that an operator has WIDENED (w0 < w) takes a sixth class, the all-ones pattern of the table width -
+   a value that is not missing in the field as it stands *)
+Cls6(idx, s) == (idx + seed + (s - 1) * (idx % 3)) % 6
+Pattern(t, w, idx, s, w0) ==
     IF t = "str" THEN StrPattern(Cls(idx, s), w \div 8)
     ELSE IF t = "ref"
          THEN LET c == Cls(idx, 1) IN ClassPattern(IF c = 2 THEN 1 ELSE c, w)   \* no negative zero; same for all subsets
+    ELSE IF t = "num" /\ w0 >= 1 /\ w0 < w
+         THEN LET c == Cls6(idx, s) IN IF c = 5 THEN Zeros(w - w0) \o Ones(w0) ELSE ClassPattern(c, w)
     ELSE ClassPattern(Cls(idx, s), w)
 
 (* "all" value mode: every bit pattern of a numeric / code field (use small widths), and for
@@ -126,12 +131,12 @@ ReadStrColumn(w, p) == RdStrColumn(SrcBits, nsub, w, p)
 (* forced = <<>> or the pattern every subset must carry (factors, bitmap   *)
 (* bits, reference definitions, which must be equal in compressed data).   *)
 (***************************************************************************)
-Field(t, w, forced) ==
+FieldW(t, w, forced, w0) ==
     IF Mode = "produce" THEN
         LET idx == Len(out) + 1
             rotating == [i \in 1..NSubCols |->
                            LET raw == IF forced # <<>> THEN forced
-                                      ELSE Pattern(t, w, idx, IF cmp THEN i ELSE sub) IN Val(t, w, raw)]
+                                      ELSE Pattern(t, w, idx, IF cmp THEN i ELSE sub, w0) IN Val(t, w, raw)]
             columns == IF ValueMode = "all" /\ forced = <<>> /\ t \in {"num", "code", "str"}
                        THEN [1..NSubCols -> {Val(t, w, r) : r \in AllPatterns(t, w)}]
                        ELSE {rotating}
@@ -154,6 +159,8 @@ Field(t, w, forced) ==
              IN IF ~avail(total) THEN short
                 ELSE IF t = "str" THEN LET c == ReadStrColumn(w, pos) IN {[vs |-> c.vs, fb |-> <<>>, n |-> c.n, ok |-> c.ok, d |-> c.d]}
                 ELSE LET c == ReadNumColumn(t, w, pos, t = "code") IN {[vs |-> c.vs, fb |-> <<>>, n |-> c.n, ok |-> c.ok, d |-> c.d]}
+
+Field(t, w, forced) == FieldW(t, w, forced, w)
 
 Entry(lab, t, w, sc, ref, link, plain, vs) ==
     [lab |-> lab, t |-> t, w |-> w, sc |-> sc, ref |-> ref, link |-> link, plain |-> plain, v |-> vs, d |-> -1, p |-> pos, mean |-> 0, at |-> pc]
@@ -311,7 +318,7 @@ ElemField(r, id, lab, kind, w0, sc0, ref0, plain, link0, mean0, nextpc) ==
                 PutField(En("code", w0, 0, WZero, f.vs), f, r2, nextpc)
        ELSE LET w == EffW(r, id, w0) IN
             IF w < 1 THEN Fail("ValueError")
-            ELSE \E f \in Field("num", w, <<>>) :
+            ELSE \E f \in FieldW("num", w, <<>>, w0) :
                  PutField(En("num", w, EffSc(r, id, sc0), EffRef(r, id, ref0), f.vs), f, r2, nextpc)
 
 Element ==
